@@ -177,6 +177,18 @@ func (h *vpHost) Connect(ctx context.Context, pi peer.AddrInfo) error {
 }
 func (h *vpHost) Close() error { return nil }
 
+// NewStream: opening a stream never completes in the harness world (the attempt is reported as failed; a writer that the
+// library respawns for a still-connected peer then parks on its error hand-off until shutdown).
+func (h *vpHost) NewStream(ctx context.Context, p peer.ID, pids ...protocol.ID) (network.Stream, error) {
+	return nil, errVpNoStream
+}
+
+var errVpNoStream = vpErr("no stream can be opened in the harness world")
+
+type vpErr string
+
+func (e vpErr) Error() string { return string(e) }
+
 // vpBus: subscriptions never deliver anything (the library's event-driven goroutines stay idle).
 type vpBus struct{ event.Bus }
 type vpBusSub struct{ ch chan interface{} }
